@@ -797,7 +797,15 @@ def _rerank(repo, col):
             body = v.args[0].args[0]
             arg = v.args[1] if len(v.args) > 1 else None
         else:
-            body, arg = v, v
+            lam = T.find(v, lambda x: x.op == "lambda")  # e.g. grouped[a].transform(lambda col: ...)
+            body, arg = (lam.args[0] if lam is not None else v), v
+        fz = T.find(body, lambda x: x.op == "mcall" and x.name == "factorize")
+        if fz is not None:
+            srt = fz.kw.get("sort")
+            if srt is not None and srt.op == "const" and srt.name is True:
+                dense = True
+            else:
+                bad_rank = body  # numbered by first appearance: equals the dense rank only for ascending rows
         rk = T.find(body, lambda x: x.op == "mcall" and x.name == "rank")
         if rk is not None:
             meth = rk.kw.get("method")
@@ -816,9 +824,11 @@ def _rerank(repo, col):
             sel = T.find(arg, lambda x: x.op == "sub" and x.args[1].op == "param" and x.args[1].name == pa)
             tgt = T.find(s_.key, lambda x: x.op == "param" and x.name == pa) is not None
             grouped = grouped or (g is not None and sel is not None and tgt)
+    if bad_rank is not None:
+        dense = False
     col.add(R, fi, "ranks are dense and zero-based", "DISCHARGED" if dense else ("VIOLATED" if bad_rank is not None else "UNDECIDED"),
-            "rank(method='dense') - 1" if dense else f"ranking is {bad_rank.short(80) if bad_rank is not None else None}: local indices must be 0, 1, 2, ... "
-            f"without gaps", node=fi.node)
+            "rank(method='dense') - 1" if dense else f"ranking is {bad_rank.short(80) if bad_rank is not None else None}: local indices must be the dense, zero-based RANK of the "
+            f"global index (0, 1, 2, ... in ascending order of the global index, without gaps), whatever the order of the rows in view", node=fi.node)
     col.add(R, fi, "re-ranking of column a happens within groups of b", "DISCHARGED" if grouped else ("VIOLATED" if st else "UNDECIDED"),
             "df.loc[:, a] = rerank(df.groupby(b)[a])" if grouped else "the helper no longer ranks column a within the groups of b", node=helper.fi.node)
 
@@ -827,7 +837,13 @@ def _edges(repo, col):
     R = "R-C11-edges"
     fi = repo.method("View", "_set_inds_in_view")
     ex = idx.expander(repo, fi)
-    st = {("n" if s.key.name == "_nodes_in_view" else "e", tuple(g.pretty() for g in s.guards)): s
+    from sa.terms import fuse_comprehensions as _fuse
+
+    class _S:  # a store with its value in normal form (helpers of the class looked through)
+        def __init__(self, s_):
+            self.key, self.guards, self.node = s_.key, s_.guards, s_.node
+            self.value = _fuse(idx.inline(repo, fi, s_.value))
+    st = {("n" if s.key.name == "_nodes_in_view" else "e", tuple(g.pretty() for g in s.guards)): _S(s)
           for s in ex.stores if s.kind == "attr" and s.key.name in ("_nodes_in_view", "_edges_in_view")}
     # node-selected view
     cand = [s for (w, g), s in st.items() if w == "e" and any("has_edge_inds" in x or "edges, None" in x for x in g) and s.value.op == "mcall"
